@@ -57,4 +57,45 @@ theorem slice_sub (src : List Nat) (a b c d : Nat) (h1 : a ≤ c) (h2 : c ≤ d)
   have e2 : min (d - c) (b - a - (c - a)) = d - c := by omega
   rw [e1, e2]
 
+theorem sibViol_nil_iff (pk : String) : ∀ cs, sibViol pk cs = [] ↔ sibsOk pk cs = true
+  | [] => by simp [sibViol, sibsOk]
+  | [_] => by simp [sibViol, sibsOk]
+  | x :: y :: rest => by
+    have ih := sibViol_nil_iff pk (y :: rest)
+    unfold sibViol sibsOk
+    cases hc : (x.slot == y.slot && x.inList && y.inList && !exemptOrder pk x.slot)
+    · simp [ih]
+    · simp only [if_true, List.append_eq_nil_iff, Bool.and_eq_true, ih]
+      apply and_congr_left'
+      cases hx : x.range with
+      | none => simp
+      | some p =>
+        cases hy : y.range with
+        | none => simp
+        | some q =>
+          obtain ⟨a, b⟩ := p
+          obtain ⟨c, d⟩ := q
+          by_cases hle : b ≤ c <;> simp [hle]
+
+mutual
+theorem viol_nil_iff_aux (src : List Nat) : ∀ (t : Tree) (par : Option (Nat × Nat)) (pk : String),
+    viol src par pk t = [] ↔ ok src par t = true
+  | .node k slot il r cs, par, pk => by
+    have ihl := violList_nil_iff_aux src cs (r.orElse fun _ => par) (if r.isSome then k else pk)
+    have hs := sibViol_nil_iff k cs
+    by_cases h1 : ownOk src r = true <;> by_cases h2 : enclOk par slot r = true <;>
+      simp only [viol, ok, h1, h2, if_true, if_false, List.nil_append, List.append_eq_nil_iff, Bool.true_and,
+        Bool.and_eq_true, hs, ihl, List.cons_append, reduceCtorEq, false_and, Bool.false_and, Bool.and_false,
+        Bool.false_eq_true, Bool.not_eq_true] <;> simp_all
+theorem violList_nil_iff_aux (src : List Nat) : ∀ (ts : List Tree) (par : Option (Nat × Nat)) (pk : String),
+    violList src par pk ts = [] ↔ okList src par ts = true
+  | [], _, _ => by simp [violList, okList]
+  | t :: ts, par, pk => by
+    simp only [violList, okList, List.append_eq_nil_iff, Bool.and_eq_true,
+      viol_nil_iff_aux src t par pk, violList_nil_iff_aux src ts par pk]
+end
+
+theorem viol_nil_iff_top (src : List Nat) (t : Tree) : viol src none "root" t = [] ↔ rangesOk src t = true :=
+  viol_nil_iff_aux src t none "root"
+
 end PV.C02
